@@ -31,6 +31,7 @@ type result struct {
 	KnownHits    map[string]int `json:"known_finding_hits"`
 	Samples      [][]string     `json:"samples"`
 	Wedged       int            `json:"wedged_histories"`
+	TriggerFree  int            `json:"trigger_free_histories"`
 	OracleChecks map[string]int `json:"oracle_checks"`
 }
 
@@ -184,6 +185,15 @@ func runFS(o fsOpts) *result {
 					}
 					key := []string{}
 					nonCreate := false
+					anyTrig := false
+					for i := range hist.Steps {
+						if i < len(m) && len(m[i].Trig) > 0 {
+							anyTrig = true
+						}
+					}
+					if !anyTrig {
+						res.TriggerFree++
+					}
 					for i, st := range hist.Steps {
 						res.Methods[st.Call.Method]++
 						res.Results[st.Call.Method+":"+st.Res]++
